@@ -165,6 +165,13 @@ class Check:
                 print(line)
                 printed.add(o.key)
         os.makedirs(os.path.join(EVIDENCE_DIR, "violations"), exist_ok=True)
+        # replay files of earlier runs of this property are stale
+        for old_ in os.listdir(os.path.join(EVIDENCE_DIR, "violations")):
+            if re.fullmatch(r"%s-\d+\.json" % re.escape(self.pid), old_):
+                try:
+                    os.unlink(os.path.join(EVIDENCE_DIR, "violations", old_))
+                except OSError:
+                    pass
         for i, o in enumerate(violations):
             path = os.path.join(EVIDENCE_DIR, "violations", "%s-%d.json" % (self.pid, i))
             with open(path, "w") as f:
